@@ -73,6 +73,14 @@ impl BlockDecoder {
                 }
 
                 if let Some(SchemeSpecific::RaptorQ(scheme)) = oti.scheme_specific.as_ref() {
+                    if scheme.symbol_alignment == 0
+                        || scheme.sub_blocks_length == 0
+                        || oti.encoding_symbol_length == 0
+                        || oti.encoding_symbol_length % scheme.symbol_alignment as u16 != 0
+                    {
+                        return Err(FluteError::new("Wrong RaptorQ scheme specific parameters"));
+                    }
+
                     let codec = fec::raptorq::RaptorQDecoder::new(
                         sbn,
                         nb_source_symbols as usize,
